@@ -1018,7 +1018,12 @@ class Model:
         if isinstance(other, Term):
             return self.add_term(Term(*self.common_components + other.components))
         elif isinstance(other, Model):
-            iterms = [Term(*self.common_components, comp) for comp in other.common_components]
+            # One term per term of 'other' (an interaction on the right is kept as a whole)
+            iterms = [
+                Term(*self.common_components, *term.components)
+                for term in other.common_terms
+                if isinstance(term, Term)
+            ]
             return self + Model(*iterms)
         else:  # pragma: no cover
             return NotImplemented
